@@ -43,6 +43,22 @@ fn take_faults() -> (u32, u32, u8, Vec<Fault>) {
     })
 }
 
+/// A real chain stops a transaction that keeps calling contracts (gas). The simulated chain
+/// does so after this many deliveries within one operation: the delivery is refused before the
+/// contract is called (no delivery is recorded; the caller sees a failed call).
+pub const MAX_DELIVERIES_PER_OP: u32 = 300;
+
+fn out_of_gas() -> Option<anyhow::Error> {
+    let over = bb::with(|s| s.ord >= MAX_DELIVERIES_PER_OP);
+    if over {
+        fired("f15_out_of_gas");
+        bb::push(Ev::Module { world: bb::world(), what: "out_of_gas", data: Value::Null });
+        Some(anyhow::anyhow!("simulated chain: out of gas (too many contract calls in one operation)"))
+    } else {
+        None
+    }
+}
+
 fn fired(kind: &'static str) {
     bb::with(|s| *s.fired.entry(kind).or_insert(0) += 1);
 }
@@ -181,6 +197,9 @@ impl<C: CustomMsg, Q: CustomQuery> Contract<C, Q> for FaultLink<C, Q> {
         info: MessageInfo,
         msg: Vec<u8>,
     ) -> anyhow::Result<Response<C>> {
+        if let Some(e) = out_of_gas() {
+            return Err(e);
+        }
         let ctx = ctx_echo(deps.as_ref(), &env, Some(&info));
         let (op, ord, msg) = self.deliver_bytes("execute", &env, ctx, msg);
         let r = self.inner.execute(deps, env, info, msg);
@@ -195,6 +214,9 @@ impl<C: CustomMsg, Q: CustomQuery> Contract<C, Q> for FaultLink<C, Q> {
         info: MessageInfo,
         msg: Vec<u8>,
     ) -> anyhow::Result<Response<C>> {
+        if let Some(e) = out_of_gas() {
+            return Err(e);
+        }
         let ctx = ctx_echo(deps.as_ref(), &env, Some(&info));
         let (op, ord, msg) = self.deliver_bytes("instantiate", &env, ctx, msg);
         let r = self.inner.instantiate(deps, env, info, msg);
@@ -203,6 +225,9 @@ impl<C: CustomMsg, Q: CustomQuery> Contract<C, Q> for FaultLink<C, Q> {
     }
 
     fn query(&self, deps: Deps<Q>, env: Env, msg: Vec<u8>) -> anyhow::Result<Binary> {
+        if let Some(e) = out_of_gas() {
+            return Err(e);
+        }
         let ctx = ctx_echo(deps, &env, None);
         let (op, ord, msg) = self.deliver_bytes("query", &env, ctx, msg);
         let r = self.inner.query(deps, env, msg);
@@ -221,6 +246,9 @@ impl<C: CustomMsg, Q: CustomQuery> Contract<C, Q> for FaultLink<C, Q> {
     }
 
     fn sudo(&self, deps: DepsMut<Q>, env: Env, msg: Vec<u8>) -> anyhow::Result<Response<C>> {
+        if let Some(e) = out_of_gas() {
+            return Err(e);
+        }
         let ctx = ctx_echo(deps.as_ref(), &env, None);
         let (op, ord, msg) = self.deliver_bytes("sudo", &env, ctx, msg);
         let r = self.inner.sudo(deps, env, msg);
@@ -229,6 +257,9 @@ impl<C: CustomMsg, Q: CustomQuery> Contract<C, Q> for FaultLink<C, Q> {
     }
 
     fn reply(&self, deps: DepsMut<Q>, env: Env, msg: Reply) -> anyhow::Result<Response<C>> {
+        if let Some(e) = out_of_gas() {
+            return Err(e);
+        }
         let ctx = ctx_echo(deps.as_ref(), &env, None);
         let (op, ord, world, faults) = take_faults();
         let mut names = vec![];
@@ -251,6 +282,9 @@ impl<C: CustomMsg, Q: CustomQuery> Contract<C, Q> for FaultLink<C, Q> {
     }
 
     fn migrate(&self, deps: DepsMut<Q>, env: Env, msg: Vec<u8>) -> anyhow::Result<Response<C>> {
+        if let Some(e) = out_of_gas() {
+            return Err(e);
+        }
         let ctx = ctx_echo(deps.as_ref(), &env, None);
         let (op, ord, msg) = self.deliver_bytes("migrate", &env, ctx, msg);
         let r = self.inner.migrate(deps, env, msg);
